@@ -1925,12 +1925,20 @@ def _expand_dispatch_tables(tree: ast.Module) -> int:
   dispatch back into the if/elif chain the rules (and the other normalisations) understand."""
   n = 0
   counter = [0]
+  def nested(fn: ast.FunctionDef, cls_name: Optional[str]) -> int:
+    k = 0
+    for x in ast.walk(fn):
+      if isinstance(x, ast.FunctionDef) and x is not fn:
+        k += _expand_dispatch_in_function(x, tree, cls_name, counter)
+    return k
   for st in tree.body:
     if isinstance(st, ast.FunctionDef):
+      n += nested(st, None)
       n += _expand_dispatch_in_function(st, tree, None, counter)
     elif isinstance(st, ast.ClassDef):
       for m in st.body:
         if isinstance(m, ast.FunctionDef):
+          n += nested(m, st.name)
           n += _expand_dispatch_in_function(m, tree, st.name, counter)
   return n
 
